@@ -184,6 +184,17 @@ def run(cfg, H):
         for idx in np.ndindex(*oshp):
             mtot = mtot + ba[idx] * H.frac(1)
         H.eq('avg-mode binning of an integer frame preserves the mean', mtot * H.frac(1, ba.size), tot * H.frac(1, a.size))
+        # tiling an integer frame: the spread values are fractions of the input samples
+        ts = det.tile(a, fac, scaling='sum')
+        ta = det.tile(a, fac, scaling='avg')
+        H.shape_is('tile shape', ts, tuple(s_ * fac for s_ in shp))
+        ttot = 0
+        atot = 0
+        for idx in np.ndindex(*tuple(s_ * fac for s_ in shp)):
+            ttot = ttot + ts[idx] * H.frac(1)
+            atot = atot + ta[idx] * H.frac(1)
+        H.eq('sum-scaled tiling of an integer frame conserves the total', ttot, tot)
+        H.eq('avg-scaled tiling of an integer frame repeats the level', atot, tot * fac ** len(shp))
     elif k == 'bayer':
         by = H.mod('prysm.bayer')
         shp = tuple(cfg['shape'])
